@@ -1190,7 +1190,7 @@ Proof.
   intros t f h r st h' Ha H. unfold wr_set_format in H. apply with_check_ret in H.
   destruct H as [[_ Hh]|[_ [_ Hb]]].
   - subst. eapply w_frame; [exact Ha|apply frame_fatal].
-  - inversion Hb. subst. destruct (r =? ARCHIVE_OK); [|exact Ha]. eapply w_move; eauto.
+  - destruct (r =? ARCHIVE_OK); inversion Hb; subst; [eapply w_move; eauto|exact Ha].
 Qed.
 
 Lemma wr_open_alive : forall t h a b st h', wopen_only_new t = true -> w_alive h ->
